@@ -70,3 +70,18 @@ Example C05_example :
             [OpOpen; OpReqData [71;69;84;32;47;32;72;84;84;80;47;49;46;49;13;10;13;10]%N;
              OpResData [72;84;84;80;47;49;46;49;32;50;48;48;32;79;75;13;10;67;111;110;116;101;110;116;45;76;101;110;103;116;104;58;32;49;13;10;13;10;120]%N; OpClose]) = true.
 Proof. vm_compute. reflexivity. Qed.
+
+(* ---- THE HISTORY-LEVEL THEOREM: for EVERY callback oracle (OK / DECLINED / STOP / ERROR / hook registration / destroy), every configuration and every
+        operation list on which the computable premise run_lcb (Spec/SLife.v; extracted and evaluated on every generated history by ./check C05) holds,
+        the monitor accepts the callback log of every transaction. run_lcb is a conjunction over the operations of conditions on the state BEFORE the
+        operation, and excludes exactly the situations of the three listed findings:
+          P1  no close while a direction is in STOP (finding 2: close revives STOP and the dangling request / response is finalised again);
+          G4/G6  a data call of one direction does not turn the OTHER direction's status from STOP/ERROR into a live value (tunnel set-up, un-parking);
+          G1  RES_IDLE is entered with data only when the request it answers exists (findings 2 and 4: unmatched response);
+          G3  RES_LINE is not entered once a first line has already been handed out as body data (finding 3);
+          G5  no response state function returns with the model's fault flag set (a callback destroyed the transaction under an armed receiver: C01 finding).
+        There is no clause about CONNECT any more: the yield defect F4 is repaired (/repo 6d6bb7e). ---- *)
+Require Import Htp.Spec.SLife Htp.Proof.PLifeRun.
+Theorem C05_lifecycle : forall cb g ops, run_lcb cb g connp_new ops = true -> chk_C05 (obs_run cb g connp_new ops) = true.
+Proof. exact lc_run_accepted. Qed.
+Print Assumptions C05_lifecycle.
